@@ -107,6 +107,14 @@ def p_c08(run):
     # (T) the bit-level kernels regenerate as straight-line IR (the IR cannot express a data-dependent branch or address;
     #     the translator refuses anything else)
     ck.kernel_tie(run, ("native", "w32", "neutral") if run.tier == "quick" else ("native", "w32", "neutral", "neutral32"))
+    # (W) whole functions of the single-block API regenerate as two-sorted structured IR (coq/SIR.v): the translator puts every
+    #     value that steers a branch, bounds a loop or forms an address in the PUBLIC sort and fails on anything else; for such
+    #     programs SIRProofs.interp_trace_public proves that the trace of branches and addresses is a function of the public
+    #     inputs; each obligation below also re-proves the function's result for all data at one public configuration
+    import whole as W
+    q = run.tier == "quick"
+    ck.whole_tie(run, ("native", "w32") if q else ("native", "w32", "neutral", "neutral32"),
+                 (W.QUICK_BLK if q else W.BLK_PARTS) + W.key_parts("128", q) + W.key_parts("64", q))
     scripts = ct_scripts(run.rng, run.tier)
     wrapper = ("valgrind", "-q", "--error-exitcode=66", "--track-origins=no")
     from concurrent.futures import ThreadPoolExecutor
